@@ -742,4 +742,91 @@ Section Kept.
       + rewrite Hls1'. discriminate.
       + congruence.
   Qed.
+  Lemma ext_add s Fin b : Ext s Fin -> Ext (with_db s (new_db (db s) b)) Fin.
+  Proof.
+    intros HX. constructor; [exact (x_cur _ _ HX)|]. intros HF.
+    cbn [with_db db new_db store libref]. rewrite keys_snoc. apply in_or_app. left. exact (x_lib _ _ HX HF).
+  Qed.
+
+  Lemma step_kept s1 s2 Fin S b : Inv s1 Fin S -> Inv s2 Fin S -> Ext s1 Fin -> Ext s2 Fin -> KRel s1 s2 ->
+    In b U -> StepK s1 s2 b.
+  Proof.
+    intros HI1 HI2 HX1 HX2 HK Hb. unfold StepK.
+    pose proof (dropped_kept s1 s2 b HK) as Ed. pose proof (incl_first_kept s1 s2 b HK) as Ei.
+    pose proof (triggers_kept s1 s2 b HK) as Et.
+    pose proof (proj1 (inv_kept s2 Fin S) HI2) as HI2'.
+    destruct (dropped s1 b) eqn:Hd.
+    { exists s1, s2, [], Fin, S.
+      rewrite (fk_step_dropped U cfg U_id s1 b Hb Hd), (fk_step_dropped U cfg' U_id s2 b Hb Ed).
+      split; [reflexivity|]. split; [reflexivity|]. split; [exact HI1|]. split; [exact HI2|].
+      split; [exact HX1|]. split; [exact HX2 | exact HK]. }
+    destruct (incl_first cfg s1 b) eqn:Hni.
+    { destruct (root_form U r0 cfg Hnofail Hnew U_id U_uniq U_up L_id L_num L_up L_decl s1 Fin S b HI1 HX1 Hb Hd Hni)
+        as (t1 & Hstep1 & Hdb1 & Hls1 & Hl1 & EF & ES & Hlr1 & Hls01 & Hfn1 & HIt1 & HXt1).
+      destruct (root_form U r0 cfg' Hnofail Hnew U_id U_uniq U_up L_id L_num L_up L_decl s2 Fin S b HI2' HX2 Hb Ed Ei)
+        as (t2 & Hstep2 & Hdb2 & Hls2 & Hl2 & _ & _ & Hlr2 & Hls02 & Hfn2 & HIt2 & HXt2).
+      apply (proj2 (inv_kept t2 _ _)) in HIt2.
+      eexists t1, t2, _, [b], [b]. split; [exact Hstep1|]. split; [exact Hstep2|].
+      split; [exact HIt1|]. split; [exact HIt2|]. split; [exact HXt1|]. split; [exact HXt2|].
+      apply (krel_same_db _ _ t1 t2 (krel_add s1 s2 b HK Hb Hd Hfn1)); try assumption; try congruence;
+        try (intros H; congruence). }
+    pose proof HI1 as [Hdb1 _ _ _]. pose proof HI2 as [Hdb2 _ _ _].
+    pose proof (di_wf U r0 U_id U_up _ Hdb1) as Hwf1. pose proof (di_wf U r0 U_id U_up _ Hdb2) as Hwf2.
+    assert (Hni2 : incl_first cfg' s2 b = false) by (rewrite Ei; reflexivity).
+    destruct (find (bid b) (store (db s1))) as [e|] eqn:Hf1.
+    { assert (Hf2 : find (bid b) (store (db s2)) = Some e).
+      { apply (krel_find s1 s2 _ _ HK Hf1).
+        rewrite (stored_is_self U U_uniq _ _ _ (di_inU U r0 _ Hdb1) Hb Hf1).
+        unfold dropped in Hd. destruct (last_sent s1); [|left; reflexivity]. right. rewrite andb_true_r in Hd. lia. }
+      exists s1, s2, [], Fin, S.
+      rewrite (fk_step_old' U cfg U_id U_uniq s1 b e (di_inU U r0 _ Hdb1) Hb Hf1 Hwf1 Hni).
+      rewrite (fk_step_old' U cfg' U_id U_uniq s2 b e (di_inU U r0 _ Hdb2) Hb Hf2 Hwf2 Hni2).
+      split; [reflexivity|]. split; [reflexivity|]. split; [exact HI1|]. split; [exact HI2|].
+      split; [exact HX1|]. split; [exact HX2 | exact HK]. }
+    assert (Hf2 : find (bid b) (store (db s2)) = None)
+      by (exact (krel_find_none s1 s2 b HK (di_inU U r0 _ Hdb2) Hb Hd Hf1)).
+    pose proof (krel_add s1 s2 b HK Hb Hd Hf1) as HKa.
+    pose proof (inv_add U r0 cfg s1 Fin S b HI1 Hb Hf1 Hni) as HIa1.
+    pose proof (inv_add U r0 cfg s2 Fin S b HI2 Hb Hf2) as HIa2.
+    assert (Hni2c : incl_first cfg s2 b = false) by exact Hni2. specialize (HIa2 Hni2c).
+    set (en := mkEntry b false) in *.
+    destruct (new_block_form U r0 cfg U_id U_up s1 Fin S b HI1 Hb Hd Hni Hf1)
+      as [[Hstep1 Hno1]|(Htr1 & pP1 & u1 & r1 & j1 & Hc1 & Hsw1 & Hstep1)];
+      destruct (new_block_form U r0 cfg' U_id U_up s2 Fin S b HI2' Hb Ed Hni2 Hf2)
+      as [[Hstep2 Hno2]|(Htr2 & pP2 & u2 & r2 & j2 & Hc2 & Hsw2 & Hstep2)].
+    - (* stored in both runs, nothing delivered *)
+      exists (with_db s1 (new_db (db s1) b)), (with_db s2 (new_db (db s2) b)), [], Fin, S.
+      split; [exact Hstep1|]. split; [exact Hstep2|]. split; [exact HIa1|]. split; [exact HIa2|].
+      split; [apply ext_add; exact HX1|]. split; [apply ext_add; exact HX2 | exact HKa].
+    - exfalso. rewrite Et in Htr2. destruct Hno1 as [Hno1|Hno1]; [congruence|]. apply Hno1. exists pP2.
+      pose proof (krel_chain _ _ _ _ (krel_sym _ _ HKa) (i_db _ _ _ _ _ _ HIa2) Hc2) as Hc. exact Hc.
+    - exfalso. rewrite Et in Hno2. destruct Hno2 as [Hno2|Hno2]; [congruence|]. apply Hno2. exists pP1.
+      pose proof (krel_chain _ _ _ _ HKa (i_db _ _ _ _ _ _ HIa1) Hc1) as Hc. exact Hc.
+    - (* triggering in both runs *)
+      pose proof (krel_chain _ _ _ _ HKa (i_db _ _ _ _ _ _ HIa1) Hc1) as Hc.
+      pose proof (chain_det _ _ _ _ _ Hc Hc2) as Eq. apply app_inv_tail in Eq. subst pP2.
+      destruct (trigger_kept s1 s2 Fin S b pP1 u1 r1 j1 u2 r2 j2 HI1 HI2 HX1 HX2 HK Hb Hf1 Hf2 Hd Hni Htr1 Hc1 Hc2 Hsw1 Hsw2)
+        as (s1' & s2' & evs & Fin' & S' & Hp1 & Hp2 & R).
+      exists s1', s2', evs, Fin', S'. rewrite Hstep1, Hstep2. split; [exact Hp1|]. split; [exact Hp2 | exact R].
+  Qed.
+
+  (* ---------------------------------------------------------------- whole histories *)
+
+  Lemma run_kept : forall h s1 s2 Fin S, Inv s1 Fin S -> Inv s2 Fin S -> Ext s1 Fin -> Ext s2 Fin -> KRel s1 s2 ->
+    (forall b, In b h -> In b U) -> fk_run cfg' s2 h = fk_run cfg s1 h.
+  Proof.
+    induction h as [|b h IH]; intros s1 s2 Fin S HI1 HI2 HX1 HX2 HK Hh; [reflexivity|].
+    destruct (step_kept s1 s2 Fin S b HI1 HI2 HX1 HX2 HK (Hh b (or_introl eq_refl)))
+      as (s1' & s2' & evs & Fin' & S' & H1 & H2 & HI1' & HI2' & HX1' & HX2' & HK').
+    cbn [fk_run]. rewrite H1, H2. f_equal.
+    exact (IH s1' s2' Fin' S' HI1' HI2' HX1' HX2' HK' (fun x Hx => Hh x (or_intror Hx))).
+  Qed.
+
+  Theorem moving_lib_kept m h : rooted r0 m -> (forall b, In b h -> In b U) ->
+    fk_run cfg' (fs_init m) h = fk_run cfg (fs_init m) h.
+  Proof.
+    intros Hm Hh.
+    exact (run_kept h (fs_init m) (fs_init m) [] [] (inv_init U r0 cfg L_id L_num L_up m Hm) (inv_init U r0 cfg L_id L_num L_up m Hm)
+             (ext_init r0 L_id m Hm) (ext_init r0 L_id m Hm) (krel_init m) Hh).
+  Qed.
 End Kept.
